@@ -13,9 +13,10 @@ PROPS = ["C03", "C06", "C07"]
 # per property and tier: list of (cfg, mode)
 CONFIGS = {
     "C01": {"quick": [("ControllerMC_share.cfg", "edges"), ("ControllerMC_share13.cfg", "edges"), ("ControllerMC_localshare.cfg", "edges"),
-                      ("ControllerMC_fault.cfg", "edges"),
+                      ("ControllerMC_fault.cfg", "edges"), ("ControllerMC_reqfull.cfg", "edges"),
                       ("ControllerMC_crashfault.cfg", "edges")],
             "thorough": [("ControllerMC_share.cfg", "edges"), ("ControllerMC_share13.cfg", "edges"), ("ControllerMC_fault.cfg", "edges"),
+                         ("ControllerMC_reqfull.cfg", "edges"), ("ControllerMC_localshare.cfg", "edges"),
                          ("ControllerMC_crashfault.cfg", "edges"), ("ControllerMC_crash.cfg", "edges"),
                          ("ControllerMC_share_sim.cfg", "sim")]},
     "C02": {"quick": [("ControllerMC_req.cfg", "edges"), ("ControllerMC_dual.cfg", "edges"), ("ControllerMC_pinmove.cfg", "edges"),
